@@ -98,11 +98,18 @@ def best : P String := do
   let v := v.diffIf (mArr != arr || mNb != nb) s!"extractBestAtPoint model_bound={mNb} impl_bound={nb}"
   -- property clauses on the implementation's answers: argmax, reported value, permutation
   let g1 := xs.getD i1 []; let g2 := xs.getD i2 []
-  let v := v.failIf (i1 ≥ n || xs.any (fun x => decide (dot point g1 < dot point x))) s!"findBestAtPoint not_argmax idx={i1}"
+  -- the products are rounded in the implementation: "argmax" up to 1e-9 relative to the magnitude of the data
+  let M := maxAbsL xs
+  let v := v.failIf (i1 ≥ n || xs.any (fun x => decide (dot point g1 + tiny M < dot point x))) s!"findBestAtPoint not_argmax idx={i1}"
   let v := v.failIf (i2 ≥ n || xs.any (fun x => decide (g2.getD corner 0 < x.getD corner 0))) s!"findBestAtSimplexCorner not_argmax idx={i2}"
   let v := v.failIf (!(closeQ (1/1000000000) v1 (dot point g1)) || v2 != g2.getD corner 0) s!"findBestAtPoint wrong_value"
   let v := v.failIf (!(isPermB xs arr)) "extractBestAtPoint not_a_permutation"
-  let v := v.failIf (nb > n || nb < bound || !((arr.take nb).any (fun x => xs.all (fun y => decide (dot point y ≤ dot point x))))) "extractBestAtPoint best_not_in_useful_range"
+  let v := v.failIf (nb > n || nb < bound || !((arr.take nb).any (fun x => xs.all (fun y => decide (dot point y ≤ dot point x + tiny M))))) "extractBestAtPoint best_not_in_useful_range"
+  -- two different VALUES within 1e-9 of the maximum: which vector wins is decided by rounding, the model is not compared
+  -- (exactly equal values are compared: there the lexicographic tie-break decides, in the model as in the code)
+  let mx := xs.foldl (fun m x => maxQ m (dot point x)) (dot point (xs.getD 0 []))
+  let nearTie := decide (1 < (((xs.filter (fun x => decide (mx - tiny M < dot point x))).map (dot point)).eraseDups).length)
+  if v.fails.isEmpty && !v.diffs.isEmpty && nearTie then return "skip ill_conditioned" else
   return v.render
 
 /-- `ed S n vecs | e arr certs` -/
